@@ -29,7 +29,7 @@ DED = {
     "C08": "apply_rules: with --fix the single write happens after all fixing, exactly when some _fix_violation ran, and what is written is get_lines() of the model the final report is computed from (nothing between the write and the report modifies the token list); get_lines is the per-line concatenation of token values; write_vhdl_file writes join(get_lines()[1:]) + newline; the phase-1 normalisers and update_token_map are verified (index == INDEX(list) afterwards); rule_list.fix runs set_token_indent before phase 4 and the normalisers after phase 1",
     "C09": "rule_list.fix: fixed order of phases, sub-phases and rules (a function of the rule list only), normalisers after phase 1, indent refresh before phase 4; the normalisers are idempotent-compatible filters (keep non-blank tokens and line breaks)",
     "C10": "Rule.fix analyses, filters, fixes each violation once and updates once; " + BASES + " have postconditions that state the region carries the requested white space / indentation / case afterwards; vhdlFile.update rebuilds the index iff bUpdateMap",
-    "C18": "the extraction helpers behind the three largest rule bases (get_tokens_matching, get_tokens_at_beginning_of_line_matching, get_sequence_of_tokens_matching: 516 rules) return regions that are exactly the slice of the token list at their recorded start (lengths 1, 1-2, len(sequence)), given that the index agrees with the list (the property's first clause, assumed there and observed at every analysis); rule_list.fix re-indexes after the phase-1 normalisers and nowhere else touches the list outside Rule.fix; vhdlFile.update: splice semantics and 'index rebuilt from the new list iff bUpdateMap'; update_token_map: index == INDEX(list); calculate_end_index / extract_tokens: [iStartIndex, iEndIndex) has as many positions as the region has real tokens and sub-regions shift the start by the tokens skipped; token_case._fix_violation keeps the region's token objects (remap=False is sound for it)",
+    "C18": "the extraction helpers behind the three largest rule bases (get_tokens_matching, get_tokens_at_beginning_of_line_matching, get_sequence_of_tokens_matching: 516 rules) and get_tokens_bounded_by (41 direct users) return regions that are exactly the slice of the token list at their recorded start (lengths 1, 1-2, len(sequence)), given that the index agrees with the list (the property's first clause, assumed there and observed at every analysis); rule_list.fix re-indexes after the phase-1 normalisers and nowhere else touches the list outside Rule.fix; vhdlFile.update: splice semantics and 'index rebuilt from the new list iff bUpdateMap'; update_token_map: index == INDEX(list); calculate_end_index / extract_tokens: [iStartIndex, iEndIndex) has as many positions as the region has real tokens and sub-regions shift the start by the tokens skipped; token_case._fix_violation keeps the region's token objects (remap=False is sound for it)",
     "C19": "vsg/tokens.py raises nothing for any string; apply_rules lets no ClassifyError / ConfigurationError / local-rules OSError escape, returns exit status True/1 for a rejected file and 'keep processing' after a syntax error; detect_subelement_until / classify_subelement_until (the statement-part loops of the parser) terminate (decreases clause) given that a classifier never returns an index in front of its argument; object_value_is raises IndexError exactly for an index past the end; the three fix bases above raise nothing under their preconditions",
 }
 
